@@ -1022,6 +1022,11 @@ class FilterSuite(Suite):
                     r = rng.random()
                     if d > 3:
                         r *= 0.5
+                    if r < 0.12:
+                        d_, sp_ = gens.gen_string(rng, maxlen=5)
+                        if rng.random() < 0.5:
+                            sp_ += rng.choice([b"\\\\", b'\\"', b"\\\\\\\\", b"\\/", b"\\u005c"])      # strings ending in an escape
+                        return b'"' + sp_ + b'"'
                     if r < 0.5:
                         return rng.choice([b"1", b"-2", b"1.5", b'"x"', b"true", b"false", b"null", b'"\\u00e9"', b"12345678901234567890", b'""'])
                     if r < 0.75:
@@ -1069,7 +1074,10 @@ class FilterSuite(Suite):
         f = h.split(" ")
         m = {x.split("=")[0]: int(x.split("=")[1]) for x in f if x.startswith("req") and "=" in x}
         if "req" in m and "requ" in m and m["req"] > m["requ"]:
-            return ("filter:memory", "filtered run requested %d bytes, unfiltered run %d bytes: %s" % (m["req"], m["requ"], case.line[:140]))
+            u = [x for x in f if x.startswith("requ:")]
+            ucode = u[0].split(":")[1] if u else "?"
+            sig = "filter:memory" + (":unfiltered-run-stopped-at-an-error" if ucode not in ("Ok", "?") else "")
+            return (sig, "filtered run (%s) requested %d bytes, unfiltered run (%s) %d bytes: %s" % (f[0], m["req"], ucode, m["requ"], case.line[:140]))
         if case.meta["fmt"] == "j" and case.meta["flt"] == b"true":
             # the filter `true` is the identity on every input, malformed included (both results from the implementation)
             u = [x for x in f if x.startswith("requ:")]
@@ -1386,6 +1394,26 @@ class ConvSuite(Suite):
                     terms.append("d%016x" % gens.double_bits(x))
                     fb = py_float32(x)
                     terms.append("f%08x" % fb)
+        # 64-bit integers next to a midpoint between two floats (double rounding through double would go wrong) and between two doubles
+        for k in range(25, 64):
+            for _ in range(6):
+                m = rng.randrange(1, 2 ** 23, 2) if k >= 24 else 1
+                base = 2 ** k + m * 2 ** (k - 24)
+                for dlt in (-1, 0, 1, 2 ** max(0, k - 53), -(2 ** max(0, k - 53))):
+                    v = base + dlt
+                    if 0 <= v < 2 ** 64:
+                        terms.append("U%d" % v)
+                    if v < 2 ** 63:
+                        terms.append("I%d" % v)
+                        terms.append("I-%d" % v)
+        for k in range(54, 64):
+            for _ in range(4):
+                m = rng.randrange(1, 2 ** 52, 2)
+                base = 2 ** k + m * 2 ** (k - 53)
+                for dlt in (-1, 0, 1):
+                    v = base + dlt
+                    if v < 2 ** 64:
+                        terms.append("U%d" % v)
         for b in gens.BOUND_F32 + mpack.BOUNDARY_F32:
             for d in (-1, 0, 1):
                 terms.append("f%08x" % ((b + d) % 2 ** 32))
@@ -2115,3 +2143,88 @@ class ThreadSuite(Suite):
                                       "concurrent use of distinct documents differs from the sequential run: " + what,
                                       {"suite": "threads", "cfg": cfg, "source": "thread_harness.cpp", "argv": ["8", str(rounds)], "texts": texts[:50], "what": what}))
         return res
+
+
+class ReuseSuite(Suite):
+    """C03: a document that is filled, traversed, serialized and reused — including documents larger than the inline pool table can hold"""
+    name = "reuse"
+
+    def generate(self, rng, tier):
+        cb = cfgbits(self.cfg)
+        n = getattr(self, "n", 150 if tier == "quick" else 8000)
+        cases = []
+
+        def big(k):
+            r = rng.random()
+            if r < 0.4:
+                return b"[" + b",".join(rng.choice([b"1", b"null", b'"s"', b"2.5", b"[]", b"{}"]) for _ in range(k)) + b"]"
+            if r < 0.7:
+                return b"{" + b",".join(b'"k%d":%d' % (i, i) for i in range(k)) + b"}"
+            return b"[" + b",".join(b'{"a":[%d,"x"]}' % i for i in range(k // 4 + 1)) + b"]"
+        sizes = [0, 1, 3, 5, 9, 20, 300, 1024, 1025, 1100, 1300, 2100]
+        for i in range(n):
+            a = big(rng.choice(sizes)) if rng.random() < 0.5 else gens.gen_json_doc(rng)[1]
+            b = big(rng.choice(sizes)) if rng.random() < 0.5 else gens.gen_json_doc(rng)[1]
+            if rng.random() < 0.15:
+                a = gens.mutate(rng, a)
+            if rng.random() < 0.5:
+                cases.append(Case("jsonre %d 10 %s %s" % (cb, hx(a), hx(b)), a=a, b=b))
+            else:
+                va = mpack.gen_value(rng) if rng.random() < 0.5 else ("arr", [("int", j) for j in range(rng.choice(sizes))])
+                vb = mpack.gen_value(rng) if rng.random() < 0.5 else ("map", [(("str", b"k%d" % j), ("nil",)) for j in range(rng.choice(sizes))])
+                cases.append(Case("mpre 10 %s %s" % (hx(mpack.encode(va, rng)), hx(mpack.encode(vb, rng))), a=b"", b=b""))
+        return cases
+
+    def oracle(self, case, h):
+        o = Suite.oracle(self, case, h)
+        if o:
+            return (o[0], o[1] + " while reusing a document: " + case.line[:80])
+        parts = h.split(" ; ")
+        if len(parts) == 3 and parts[0] != parts[2]:
+            return ("reuse:not-idempotent", "deserializing the same input into a reused document gives another result: '%s' vs '%s'" % (parts[0][:80], parts[2][:80]))
+        return None
+
+    def feature(self, case, h):
+        return case.line[:200]
+
+
+class DeserFaultSuite(Suite):
+    """C05 for deserialization: for each input, EVERY single-failure position and EVERY fail-from-k schedule (enumerated inside the harness):
+    failure reported as NoMemory + overflowed(), partial document traversable and serializable, nothing leaked after clear(), document usable again"""
+    name = "deserfault"
+    uses_driver = False
+
+    def generate(self, rng, tier):
+        n = getattr(self, "n", 500 if tier == "quick" else 30000)
+        cases = []
+        fixed = [b'[""]', b'{"":1}', b'{"a":""}', b'["x","","y"]', b'["\\u00e9"]', b'{"k\\u0041":"v\\u0042"}', b'[1,2.5,1e300,18446744073709551615,-9223372036854775808]',
+                 b'{"a":{"b":{"c":[1,2,{"d":"e"}]}}}', b'["dup","dup","dup"]', b'[[],[[]],{}]', b'"just a string"', b'[' + b",".join(b'"s%d"' % i for i in range(40)) + b']']
+        for t in fixed:
+            cases.append(Case("dfaultall j %s" % hx(t), text=t))
+        for i in range(n):
+            if rng.random() < 0.6:
+                _, t = gens.gen_json_doc(rng, maxdepth=3, budget=rng.choice([3, 8, 14]))
+                if rng.random() < 0.1:
+                    t = gens.mutate(rng, t)
+                cases.append(Case("dfaultall j %s" % hx(t), text=t))
+            else:
+                v = mpack.gen_value(rng, maxdepth=3)
+                data = mpack.encode(v, rng)
+                if rng.random() < 0.1:
+                    data = gens.mutate(rng, data)
+                cases.append(Case("dfaultall m %s" % hx(data), text=data))
+        return cases
+
+    def oracle(self, case, h):
+        o = Suite.oracle(self, case, h)
+        if o:
+            return (o[0], o[1] + " while deserializing %r under an allocation-failure schedule" % case.meta["text"][:60])
+        if " BAD " in h:
+            what = h.split(" BAD ", 1)[1]
+            kind = "leak" if "still allocated" in what or "left after" in what else ("not-reported" if "but" in what else "other")
+            return ("deserfault:" + kind, "input %r: %s" % (case.meta["text"][:60], what))
+        return None
+
+    def feature(self, case, h):
+        m = re.match(r"N=(\d+)", h or "")
+        return case.line if m and int(m.group(1)) > 0 else None
